@@ -13,6 +13,12 @@ from .model import AnalysisError
 Oracle = Callable[[ast.Call, dict[str, Any]], Any]
 
 
+class Raised(Exception):
+    """The interpreted code reached a `raise` statement."""
+    def __init__(self, node: ast.Raise) -> None:
+        self.node = node
+
+
 class _Return(Exception):
     def __init__(self, node: ast.Return, env: dict[str, Any]) -> None:
         self.node, self.env = node, env
@@ -138,6 +144,15 @@ def exec_body(stmts: list[ast.stmt], env: dict[str, Any], oracle: Oracle | None 
             continue
         if isinstance(st, ast.Return):
             raise _Return(st, env)
+        if isinstance(st, ast.Raise):
+            raise Raised(st)
+        if isinstance(st, ast.Assert):
+            if not eval_expr(st.test, env, oracle):
+                raise Raised(ast.Raise(exc=ast.Name(id="AssertionError", ctx=ast.Load()), cause=None))
+            continue
+        if isinstance(st, ast.Expr):
+            eval_expr(st.value, env, oracle)
+            continue
         raise AnalysisError(f"statement outside the finite-domain language: {ast.unparse(st)[:80]}")
 
 
